@@ -48,7 +48,13 @@ func init() {
 			"string formats email, password, hostname, duration and one format the application registers itself (api.RegisterFormat; Go type and validator defined by the monitor); " +
 			"an empty text with a declared default is judged (the default) whatever validation is declared; number texts outside the core grammar that strconv accepts must be refused with 422 or bound to the strconv value (bounds applied to it); " +
 			"the texts of every query/header/form request are also handed to runtime.ReadSingleValue / runtime.ReadCollectionValue (last occurrence, items of the last occurrence; absent key; key present without values); " +
-			"in operations with form and query parameters the form body carries a field named like the query parameter; twelve array-of-arrays declarations (no panic, no server error, 422 or the items of the items)",
+			"in operations with form and query parameters the form body carries a field named like the query parameter; twelve array-of-arrays declarations (no panic, no server error, 422 or the items of the items). " +
+			"Added by the third strengthening round: form requests without any payload (no body; with and without the form Content-Type): every form parameter is absent, the other locations bind as usual; " +
+			"form bodies of unknown length (no Content-Length, Transfer-Encoding chunked), also for operations that declare two and more form parameters (every one must bind); " +
+			"file parameters of operations consuming application/x-www-form-urlencoded, and a text field named like a file parameter; " +
+			"form bodies and Content-Types that cannot be parsed as the declared form (no panic, no server error, handler and binder alone); " +
+			"query and form parameter names that are not identifiers (filter[status], $top, a b, a&b, ...); unsigned struct fields are handed literals beyond the unsigned type of their width (must be refused); " +
+			"pattern declarations in every quick pass; the feature class of the known enum finding requires that a value is validated at all (the parameter is carried by the request, or required)",
 		Assumptions: []string{
 			"texts outside the core literal grammar that Go's strconv nevertheless accepts (inf, NaN, hex floats, underscores) may be refused or bound to the strconv value",
 			"date-time texts other than RFC 3339 and uuid texts other than the canonical 8-4-4-4-12 form may be refused or accepted",
@@ -62,6 +68,9 @@ func init() {
 			"enum of a formatted string (date, date-time, uuid, byte): a text equal to a listed value is in the enum, a text denoting the same value in another spelling is not judged; validations of a float-format number are not judged when the 32-bit and the 64-bit reading of the text disagree about them",
 			"a pointer-typed struct field may be left nil where the value-typed field would hold the zero value; an unsigned struct field is judged for unsigned decimal texts (and non-decimal texts) only",
 			"two parameters of one operation never share a name (the map handed to the handler is keyed by name)",
+			"a form request whose body or Content-Type cannot be parsed as the declared form carries no texts: only 'no panic, no server error' is judged for it",
+			"a text field named like a file parameter is not an uploaded file: a required file is then missing (422); for an optional one the handler gets no file, or the request is refused with 422 naming it",
+			"declarations that are not valid Swagger 2.0 although the loader accepts them (no type, an array without items, a default that is not of the declared type, collectionFormat multi in a header or a path) are outside 'any declaration the description language allows' and are not generated",
 		},
 		MinNontrivial: 500,
 		Run:           run,
@@ -91,6 +100,22 @@ type Req struct {
 	// BodyShadow: for query parameters of an operation that also declares form parameters, a field of the
 	// same name carried in the form body (another location: it must not be looked at)
 	BodyShadow *mon.Q `json:"shadowBody,omitempty"`
+	// Chunked: the form body travels without an announced length (Transfer-Encoding: chunked, what net/http
+	// clients send for every body that is not a buffer, this library's own multipart client included):
+	// Request.ContentLength is -1 and there is no Content-Length header
+	Chunked bool `json:"chunked,omitempty"`
+	// NoPayload (formData, with Absent): the request has no body at all, which is what a client sends that was
+	// given no form value. "bare": no Content-Type either; "content-type": the form's Content-Type and a
+	// Content-Length of 0. No form parameter is sent by such a request.
+	NoPayload string `json:"noPayload,omitempty"`
+	// AsText (file parameters): Texts[0] travels as an ordinary text field under the parameter's name, not as
+	// an uploaded file (the only way a urlencoded form can carry the name at all)
+	AsText bool `json:"asTextField,omitempty"`
+	// Malformed (formData): the body or its Content-Type is not a form the declared media type can parse:
+	// "bad-escape" (urlencoded: an invalid %-escape), "truncated" (multipart: the closing boundary is missing),
+	// "no-boundary" (multipart Content-Type without boundary), "json-content-type", "unparsable-content-type".
+	// Nothing is promised about the value: binding must not panic and the answer must not be a server error.
+	Malformed string `json:"malformed,omitempty"`
 }
 
 // Ext holds what gen.Param cannot express about a declaration (parallel to Case.Decls).
@@ -596,6 +621,14 @@ func expect(d *dcl, rq *Req) expectation {
 				return expectation{reject: true, why: "required file missing"}
 			}
 			return expectation{accepts: []string{"nofile"}, why: "optional file absent"}
+		}
+		if rq.AsText {
+			// a text field is not an uploaded file: no file was sent (a required one is missing); refusing the
+			// text as "not a file" is the other reading of the statement
+			if d.Required {
+				return expectation{reject: true, why: "required file missing (a text field of that name is not a file)"}
+			}
+			return expectation{either: true, orRefuse: true, class: "text-field-named-like-a-file-parameter", accepts: []string{"nofile"}, why: "a text field named like the optional file parameter: no file, or 422"}
 		}
 		return expectation{accepts: []string{"file:" + path.Base(rq.FileName) + ":" + fmt.Sprintf("%x", texts[0])}, why: "file content, base file name"}
 	}
@@ -1109,6 +1142,8 @@ func assemble(target, method string, parts []part) (*http.Request, bool) {
 		file               bool
 	}
 	var fields []field
+	chunked, malformed, noPayload := false, "", ""
+	formParts, formAbsent := 0, 0
 	for _, pt := range parts {
 		d, rq := pt.d, pt.rq
 		texts := mon.SQ(rq.Texts)
@@ -1157,8 +1192,19 @@ func assemble(target, method string, parts []part) (*http.Request, bool) {
 			if rq.Shadow != nil {
 				query = append(query, url.QueryEscape(d.Name)+"="+url.QueryEscape(string(*rq.Shadow)))
 			}
+			chunked = chunked || rq.Chunked
+			if rq.Malformed != "" {
+				malformed = rq.Malformed
+			}
+			if rq.NoPayload != "" {
+				noPayload = rq.NoPayload
+			}
+			formParts++
+			if rq.Absent {
+				formAbsent++
+			}
 			if !rq.Absent {
-				if d.Type == "file" {
+				if d.Type == "file" && !rq.AsText {
 					fields = append(fields, field{key: key, val: texts[0], fileName: rq.FileName, file: true})
 				} else {
 					for _, t := range texts {
@@ -1184,17 +1230,27 @@ func assemble(target, method string, parts []part) (*http.Request, bool) {
 			}
 		}
 		w.Close()
+		if malformed == "truncated" {
+			buf.Truncate(buf.Len() - len("\r\n--"+w.Boundary()+"--\r\n")) // the closing boundary never arrives
+		}
 		body = &buf
 		ct = w.FormDataContentType()
 		if ctSpelling == "case" || ctSpelling == "both" {
 			ct = "Multipart/Form-Data" + strings.TrimPrefix(ct, "multipart/form-data")
+		}
+		if malformed == "no-boundary" {
+			ct = "multipart/form-data"
 		}
 	case "urlencoded":
 		vals := url.Values{"unrelated": {"1"}}
 		for _, f := range fields {
 			vals[f.key] = append(vals[f.key], f.val)
 		}
-		body = strings.NewReader(vals.Encode())
+		enc := vals.Encode()
+		if malformed == "bad-escape" {
+			enc = "broken=%zz&" + enc
+		}
+		body = strings.NewReader(enc)
 		ct = "application/x-www-form-urlencoded"
 		if ctSpelling == "case" || ctSpelling == "both" {
 			ct = "Application/X-WWW-Form-UrlEncoded"
@@ -1203,10 +1259,31 @@ func assemble(target, method string, parts []part) (*http.Request, bool) {
 	if ct != "" && (ctSpelling == "charset" || ctSpelling == "both") {
 		ct += "; charset=UTF-8"
 	}
+	switch malformed {
+	case "json-content-type":
+		ct = "application/json"
+	case "unparsable-content-type":
+		ct += "; charset"
+	}
+	if noPayload != "" {
+		if form == "" || formAbsent != formParts {
+			return nil, false // a request without payload carries no form parameter
+		}
+		body = nil
+		if noPayload == "bare" {
+			ct = ""
+		}
+	}
+	if chunked && body != nil {
+		body = unknownLength{body}
+	}
 	if len(query) > 0 {
 		target += "?" + strings.Join(query, "&")
 	}
 	r := httptest.NewRequest(method, target, body)
+	if chunked && body != nil {
+		r.TransferEncoding = []string{"chunked"} // what a server hands to its handler for such a request
+	}
 	for k, v := range hdr {
 		r.Header[k] = v
 	}
@@ -1216,6 +1293,10 @@ func assemble(target, method string, parts []part) (*http.Request, bool) {
 	r.Header.Set("Accept", "application/json")
 	return r, true
 }
+
+// unknownLength hides the concrete reader type: no length can be announced for the body
+// (Request.ContentLength is -1, there is no Content-Length header).
+type unknownLength struct{ io.Reader }
 
 func (c *Case) request(rq *Req) (*http.Request, bool) {
 	d := c.decl(rq.D)
@@ -1271,6 +1352,19 @@ func declClass(d *dcl) string {
 }
 
 func presenceClass(d *dcl, rq *Req) string {
+	if rq.NoPayload != "" && d.In == "formData" {
+		return "absent+no-payload-" + rq.NoPayload
+	}
+	if rq.Chunked && d.In == "formData" {
+		r2 := *rq
+		r2.Chunked = false
+		return presenceClass(d, &r2) + "+unknown-length"
+	}
+	if rq.AsText {
+		r2 := *rq
+		r2.AsText = false
+		return presenceClass(d, &r2) + "+sent-as-text-field"
+	}
 	if rq.CT != "" && d.In == "formData" {
 		r2 := *rq
 		r2.CT = ""
@@ -1314,11 +1408,20 @@ func featureOf(d *dcl, rq *Req, exp *expectation) string {
 	switch {
 	case d.X.NestedCF != nil:
 		return "array-of-arrays"
+	case d.Type == "file" && d.Form == "urlencoded":
+		return "file-parameter-on-urlencoded-operation"
 	case tpe == "boolean" && !noText && hasBoolJunk(d, rq):
 		return boolJunkFeature
-	case structTypedFormat(kind{tpe, format}) && ((d.Type != "array" && len(d.Enum) > 0) || (d.Type == "array" && len(d.X.ItemsEnum) > 0)):
-		// known finding: the enum validator compares the strfmt value with the listed texts
+	case structTypedFormat(kind{tpe, format}) && ((d.Type != "array" && len(d.Enum) > 0) || (d.Type == "array" && len(d.X.ItemsEnum) > 0)) &&
+		(!rq.gone() || d.Required):
+		// known finding: the enum validator compares the strfmt value with the listed texts. That explains a
+		// request only when a value IS validated: the request carries the parameter (a text, or the empty text
+		// for which the declared default stands), or the parameter is required (its default is validated).
+		// An optional parameter the request does not carry falls through to the ordinary classes below.
 		return "enum-on-a-format-not-held-in-a-string"
+	case rq.Chunked && d.In == "formData":
+		// (after the classes of the known findings, which keep their signatures whatever the transfer encoding)
+		return "form-body-of-unknown-length"
 	case rq.gone() && !d.Required && d.Default == nil && d.Type == "string" && d.Format == "duration":
 		return "optional-absent-duration"
 	case rq.gone() && !d.Required && d.Default == nil && (hasValidation(d) || validatedFormat(d.Format)):
@@ -1512,6 +1615,10 @@ func runCase(m sink, c *Case, isolate bool) {
 	for ri := range c.Reqs {
 		rq := &c.Reqs[ri]
 		d := c.decl(rq.D)
+		if rq.Malformed != "" && d.In == "formData" {
+			malformedForm(m, c, s, ri, d, rq, isolate)
+			continue
+		}
 		req, ok := c.request(rq)
 		if !ok {
 			m.Class("undeliverable")
@@ -1548,7 +1655,7 @@ func runCase(m sink, c *Case, isolate bool) {
 			case !exp.orRefuse:
 			case s.ran == 0 && rec.Code != 422:
 				report(m, c, ri, isolate, fmt.Sprintf("reject-status-%d/%s/%s", rec.Code, exp.class, dc), descr())
-			case s.ran == 0 && !strings.Contains(rec.Body.String(), d.Name):
+			case s.ran == 0 && !names(rec.Body.String(), d.Name):
 				report(m, c, ri, isolate, "422-does-not-name-parameter/"+exp.class+"/"+dc, descr())
 			case s.ran == 0:
 				m.Class(exp.class + ":refused-422")
@@ -1575,7 +1682,7 @@ func runCase(m sink, c *Case, isolate bool) {
 				report(m, c, ri, isolate, fmt.Sprintf("reject-status-%d/%s", rec.Code, sigTail(feat, dc, textClass)), descr())
 				continue
 			}
-			if !strings.Contains(rec.Body.String(), d.Name) {
+			if !names(rec.Body.String(), d.Name) {
 				report(m, c, ri, isolate, "422-does-not-name-parameter/"+sigTail(feat, dc, textClass), descr())
 				continue
 			}
@@ -1697,6 +1804,119 @@ func coverage(m sink, d *dcl, rq *Req) {
 	if v := valClass(d); v != "" {
 		m.Class("shape:validation" + v)
 	}
+	if d.In == "formData" {
+		switch {
+		case rq.NoPayload != "":
+			m.Class("shape:form-no-payload-" + rq.NoPayload)
+		case rq.Chunked:
+			m.Class("shape:form-unknown-length")
+		}
+		if d.Type == "file" && d.Form == "urlencoded" {
+			m.Class("shape:file-parameter-on-urlencoded-operation")
+		}
+	}
+	if (d.In == "query" || d.In == "formData") && !reIdent.MatchString(d.Name) {
+		m.Class("shape:parameter-name-not-an-identifier")
+	}
+}
+
+var reIdent = regexp.MustCompile(`^[A-Za-z0-9_-]+$`)
+
+// names: does the answer name the parameter? The answer is JSON: a name is looked for in the body as sent and
+// in its decoded message (the encoder writes & < > as \u0026 ...).
+func names(body, name string) bool {
+	if strings.Contains(body, name) {
+		return true
+	}
+	var doc struct {
+		Message string `json:"message"`
+	}
+	if json.Unmarshal([]byte(body), &doc) == nil && strings.Contains(doc.Message, name) {
+		return true
+	}
+	return false
+}
+
+// binderFor: the struct-target binder of declaration di and field shape (one per case, like the binder of a route).
+func (s *sut) binderFor(c *Case, di int, shape string) *middleware.UntypedRequestBinder {
+	bk := fmt.Sprintf("%d/%s", di, shape)
+	binder := s.binders[bk]
+	if binder == nil {
+		pj, _ := json.Marshal(c.paramObj(di))
+		var sp spec.Parameter
+		if err := json.Unmarshal(pj, &sp); err != nil {
+			return nil
+		}
+		binder = middleware.NewUntypedRequestBinder(map[string]spec.Parameter{"F": sp}, new(spec.Swagger), registry)
+		s.binders[bk] = binder
+	}
+	return binder
+}
+
+// malformedForm sends a form request whose body or Content-Type cannot be parsed as the declared form. The
+// statement gives such a request no texts, so no value is judged: binding must not panic and the answer must
+// not be a server error, through the handler and through the binder alone.
+func malformedForm(m sink, c *Case, s *sut, ri int, d *dcl, rq *Req, isolate bool) {
+	req, ok := c.request(rq)
+	if !ok {
+		m.Class("undeliverable")
+		return
+	}
+	tail := rq.Malformed + "/" + d.In + "-" + d.Form
+	if d.Type == "file" {
+		tail += "/file"
+	}
+	s.ran, s.got = 0, nil
+	rec := httptest.NewRecorder()
+	pv, st := mon.Catch(func() { s.handler.ServeHTTP(rec, req) })
+	m.Eval(1)
+	m.NT(declKey(d) + "|malformed-form|" + rq.Malformed)
+	m.Class("shape:malformed-form-" + rq.Malformed)
+	descr := func() string {
+		db, _ := json.Marshal(c.paramObj(rq.D))
+		return fmt.Sprintf("decl=%s form=%q method=%s malformed form request (%s) texts=%q -> status %d body %.140q handler=%d ; expected: no panic, no server error", db, d.Form, d.method(), rq.Malformed, mon.SQ(rq.Texts), rec.Code, rec.Body.String(), s.ran)
+	}
+	switch {
+	case pv != nil:
+		report(m, c, ri, isolate, "panic/malformed-form/"+tail, fmt.Sprintf("panic: %v ; %s\n%s", pv, descr(), st))
+		return
+	case rec.Code >= 500:
+		report(m, c, ri, isolate, "server-error/malformed-form/"+tail, descr())
+		return
+	}
+	m.Class(fmt.Sprintf("malformed-form:answered-%dxx", rec.Code/100))
+	ft := fieldType(d, "")
+	if d.Type == "file" {
+		ft = reflect.TypeOf(runtime.File{})
+	}
+	if ft == nil {
+		return
+	}
+	binder := s.binderFor(c, rq.D, "")
+	if binder == nil {
+		return
+	}
+	if req, ok = c.request(rq); !ok {
+		return
+	}
+	target := reflect.New(reflect.StructOf([]reflect.StructField{{Name: "F", Type: ft}}))
+	var berr error
+	pv, st = mon.Catch(func() { berr = binder.Bind(req, nil, runtime.JSONConsumer(), target.Interface()) })
+	m.Eval(1)
+	code := 0
+	if ce, isCoded := berr.(interface{ Code() int32 }); isCoded {
+		code = int(ce.Code())
+	}
+	switch {
+	case pv != nil:
+		report(m, c, ri, isolate, "struct-target/panic/malformed-form/"+tail, fmt.Sprintf("panic: %v ; struct target: %s\n%s", pv, descr(), st))
+	case code >= 500 && code < 600:
+		report(m, c, ri, isolate, "struct-target/server-error/malformed-form/"+tail, fmt.Sprintf("struct target: err=%v (code %d) ; %s", berr, code, descr()))
+	case berr != nil:
+		m.Class("malformed-form:binder-refused")
+	default:
+		m.Class("malformed-form:binder-accepted")
+	}
 }
 
 // sigTail: a known input feature explains the failure by itself; otherwise the full declaration and
@@ -1783,6 +2003,23 @@ func runMulti(m sink, c *Case, s *sut, mi int) {
 		}
 	}
 	one := c.multiAlone(mi)
+	nForm, unknownLen, noPayload := 0, false, false
+	for _, pt := range parts {
+		if pt.d.In == "formData" {
+			nForm++
+			unknownLen = unknownLen || pt.rq.Chunked
+			noPayload = noPayload || pt.rq.NoPayload != ""
+		}
+	}
+	if nForm >= 2 {
+		m.Class("shape:several-form-parameters-in-one-operation")
+		if unknownLen {
+			m.Class("shape:several-form-parameters+unknown-length")
+		}
+	}
+	if noPayload {
+		m.Class("shape:several-parameters+form-no-payload")
+	}
 	s.ran, s.got = 0, nil
 	rec := httptest.NewRecorder()
 	pv, st := mon.Catch(func() { s.handler.ServeHTTP(rec, req) })
@@ -1844,12 +2081,12 @@ func runMulti(m sink, c *Case, s *sut, mi int) {
 		}
 		named := 0
 		for _, k := range allRejected {
-			if strings.Contains(rec.Body.String(), parts[k].d.Name) {
+			if names(rec.Body.String(), parts[k].d.Name) {
 				named++
 			}
 		}
 		for _, k := range rejected {
-			if !strings.Contains(rec.Body.String(), parts[k].d.Name) {
+			if !names(rec.Body.String(), parts[k].d.Name) {
 				kind := "the-only-offending-parameter"
 				if len(allRejected) > 1 {
 					kind = "one-of-several-offending-parameters"
@@ -2069,6 +2306,16 @@ func fieldType(d *dcl, shape string) reflect.Type {
 
 var reUnsigned = regexp.MustCompile(`^[0-9]+$`)
 
+// beyondUnsigned: a decimal literal that an unsigned integer of the given width cannot hold either
+// (a negative number, or a magnitude of 2^bits and more).
+func beyondUnsigned(text string, bits int) bool {
+	if strings.HasPrefix(text, "-") {
+		return strings.Trim(text, "-0") != ""
+	}
+	_, err := strconv.ParseUint(strings.TrimPrefix(text, "+"), 10, bits)
+	return err != nil
+}
+
 // pointerFieldShape classifies (from the input only) the request shapes whose handling depends on the
 // struct field being a pointer; "" for every other request.
 func pointerFieldShape(d *dcl, rq *Req) string {
@@ -2117,6 +2364,8 @@ func structTargetShape(m sink, c *Case, s *sut, ri int, d *dcl, exp *expectation
 		switch {
 		case exp.reject && lc == "not-decimal":
 		case exp.reject && lc == "no-text":
+		case exp.reject && lc == "decimal-out-of-range" && beyondUnsigned(last, intBits(d.Format)):
+			// outside the declared format AND outside the unsigned type of that width: refused under every reading
 		case !exp.reject && (last == "" || reUnsigned.MatchString(last)):
 			if def, isNum := d.Default.(float64); isNum && def < 0 {
 				return
@@ -2125,16 +2374,9 @@ func structTargetShape(m sink, c *Case, s *sut, ri int, d *dcl, exp *expectation
 			return
 		}
 	}
-	bk := fmt.Sprintf("%d/%s", rq.D, shape)
-	binder := s.binders[bk]
+	binder := s.binderFor(c, rq.D, shape)
 	if binder == nil {
-		pj, _ := json.Marshal(c.paramObj(rq.D))
-		var sp spec.Parameter
-		if err := json.Unmarshal(pj, &sp); err != nil {
-			return
-		}
-		binder = middleware.NewUntypedRequestBinder(map[string]spec.Parameter{"F": sp}, new(spec.Swagger), registry)
-		s.binders[bk] = binder
+		return
 	}
 	st := reflect.StructOf([]reflect.StructField{{Name: "F", Type: ft}})
 	target := reflect.New(st)
@@ -2604,7 +2846,9 @@ func applyValidation(p *gen.Param, k kind, isArray bool) {
 }
 
 var intPool = []string{"0", "-0", "+7", "007", "-128", "127", "128", "-129", "32767", "32768", "-32768", "-32769", "2147483647", "2147483648", "-2147483648", "-2147483649",
-	"9223372036854775807", "9223372036854775808", "-9223372036854775808", "-9223372036854775809", "0x10", "1_000", "1e3", "1.0", " 5", "5 ", "abc", "٣", "--5", "+", "-", "99", "-100", "101", "42", "98", "-98", "91", "-7", "14"}
+	"9223372036854775807", "9223372036854775808", "-9223372036854775808", "-9223372036854775809", "0x10", "1_000", "1e3", "1.0", " 5", "5 ", "abc", "٣", "--5", "+", "-", "99", "-100", "101", "42", "98", "-98", "91", "-7", "14",
+	// beyond the unsigned type of each width too (an unsigned struct field must refuse them as well)
+	"256", "65536", "4294967296", "18446744073709551616"}
 var floatPool = []string{"0", "-0", "1.5", ".5", "5.", "1e10", "1E-3", "+2.5", "3.4028235e38", "3.4028236e38", "3.5e38", "1e39", "-3.5e38", "1.7976931348623157e308", "1.8e308", "1e-400", "1e-46",
 	"inf", "-Inf", "NaN", "0x1p-2", "1_0.5", "1,5", "abc", " 1", "1.000000059604644775390625", "1.000000059604644775390626", "16777217", "100.5", "100.6", "-100.5", "e5", ".", "1e", "--1", "100.25", "0.3", "-2", "2.50"}
 var boolPool = []string{"true", "false", "TRUE", "False", "1", "0", "yes", "no", "y", "n", "on", "off", "t", "f", "ok", "enabled", "disabled", "checked", "selected", "maybe", "2", "tru", " true", "nil", "unchecked"}
@@ -2653,8 +2897,13 @@ func poolFor(tpe, format string) []string {
 	return stringPool
 }
 
-// triagePending: request shapes left out of the generator while an alarm is being triaged (none at present).
-func triagePending(d *dcl, rq *Req) bool { return false }
+// triagePending: request shapes left out of the generator while an alarm is being triaged. None at present.
+//
+// (Round 3: a REQUIRED file parameter of an operation that consumes application/x-www-form-urlencoded, called with a
+// urlencoded body - which cannot carry a file - was answered 400 "request Content-Type isn't multipart/form-data" instead of
+// the 422 "required" the statement gives for a required parameter that is missing; sig
+// reject-status-400/file-parameter-on-urlencoded-operation. Repaired in the library by 441dcd1 and pinned.)
+func triagePending(*dcl, *Req) bool { return false }
 
 func genReqs(r *rand.Rand, di int, d *dcl, full bool) []Req {
 	all := genReqsUnfiltered(r, di, d, full)
@@ -2704,12 +2953,37 @@ func genReqsUnfiltered(r *rand.Rand, di int, d *dcl, full bool) []Req {
 			out = append(out, c)
 		}
 	}
+	if d.In == "formData" {
+		// no payload at all (what a client sends that was given no form value): no form parameter is sent
+		out = append(out, Req{D: di, Absent: true, NoPayload: "bare"}, Req{D: di, Absent: true, NoPayload: "content-type"})
+		// a body or a Content-Type that is no form: no panic, no server error
+		kinds := []string{"bad-escape", "json-content-type", "unparsable-content-type"}
+		if d.Form == "multipart" {
+			kinds = []string{"truncated", "no-boundary", "json-content-type", "unparsable-content-type"}
+		}
+		for _, k := range kinds {
+			if !full && r.Intn(2) == 0 {
+				continue
+			}
+			mr := Req{D: di, Texts: []mon.Q{"1"}, Malformed: k}
+			if d.Type == "file" {
+				mr.FileName = "a.txt"
+			}
+			out = append(out, mr)
+		}
+	}
 	if d.Default != nil && d.In != "path" {
 		// after everything else (and after the receivers have written to what they were handed): the
 		// parameter is omitted once more and the declared default is due again
 		out = append(out, Req{D: di, Absent: true})
 	}
 	for i := range out {
+		if out[i].Malformed != "" || out[i].NoPayload != "" {
+			continue
+		}
+		if d.In == "formData" && r.Intn(6) == 0 {
+			out[i].Chunked = true // the length of the body is not announced
+		}
 		if d.In == "formData" && r.Intn(3) == 0 {
 			// what browsers and other clients send: media type parameters, another letter case
 			out[i].CT = []string{"charset", "charset", "case", "both"}[r.Intn(4)]
@@ -2753,6 +3027,11 @@ func genReqsPlain(r *rand.Rand, di int, d *dcl, full bool) []Req {
 	}
 	if d.Type == "file" {
 		out = append(out, Req{D: di, Absent: true})
+		// a text field named like the file parameter (all a urlencoded form can carry)
+		out = append(out, Req{D: di, Texts: []mon.Q{"hello"}, AsText: true}, Req{D: di, Texts: []mon.Q{""}, AsText: true})
+		if d.Form != "multipart" {
+			return out
+		}
 		for _, content := range []string{"", "hello", strings.Repeat("x", 70000), "\x00\x01\xff"} {
 			out = append(out, Req{D: di, Texts: []mon.Q{mon.Q(content)}, FileName: []string{"a.txt", "dir/b.bin", "c \"q\".txt"}[r.Intn(3)]})
 		}
@@ -3046,6 +3325,10 @@ func extraDecls() (decls []gen.Param, forms []string, exts []Ext) {
 	} {
 		add(gen.Param{In: nd.in, Type: "array", ItemsType: nd.ik.tpe, ItemsFormat: nd.ik.format, CollectionFormat: nd.cf, Required: nd.required}, Ext{NestedCF: sp(nd.icf)}, nd.form)
 	}
+	// a file parameter of an operation that consumes application/x-www-form-urlencoded (the description
+	// language allows both form media types for it): such a form cannot carry a file, so none is ever sent
+	add(gen.Param{In: "formData", Type: "file"}, Ext{}, "urlencoded")
+	add(gen.Param{In: "formData", Type: "file", Required: true}, Ext{}, "urlencoded")
 	return decls, forms, exts
 }
 
@@ -3079,6 +3362,10 @@ func placement(r *rand.Rand, p *gen.Param, x Ext) Ext {
 
 // ---------------- operations with several parameters: generation ----------------
 
+// names a query or form parameter may have that are not identifiers (they are escaped on the wire)
+var oddNames = []string{"filter[status]", "$top", "page.size", "a b", "é", "a+b", "id[]", "a=b", "a&b", "x%41y", "Content-Type"}
+var oddNameTails = []string{"[status]", ".size", " b", "é", "+b", "[]", "=b", "&b", "$", "%41"}
+
 var multiHeaderNames = []string{"X-Zz%dk", "x-zz%dk", "X-ZZ%dK", "Zz%dk-Id"}
 
 // genMulti builds one case of nOps operations, each declaring 2-4 of the given declarations (renamed so
@@ -3096,6 +3383,8 @@ func genMulti(r *rand.Rand, decls []gen.Param, forms []string, exts []Ext, idx [
 			need = []string{"query", "header"}
 		case 1:
 			need = []string{"formData", "query"}
+		case 2:
+			need = []string{"formData", "formData"} // two form parameters share one body (parsed once, by the first binder)
 		}
 		for tries := 0; len(g) < want && tries < 200; tries++ {
 			di := idx[r.Intn(len(idx))]
@@ -3124,6 +3413,9 @@ func genMulti(r *rand.Rand, decls []gen.Param, forms []string, exts []Ext, idx [
 				p.Name = fmt.Sprintf(multiHeaderNames[r.Intn(len(multiHeaderNames))], pos)
 			} else {
 				p.Name = fmt.Sprintf("zz%dk", pos)
+				if (p.In == "query" || p.In == "formData") && r.Intn(8) == 0 {
+					p.Name += oddNameTails[r.Intn(len(oddNameTails))]
+				}
 			}
 			x := exts[di]
 			x = placement(r, &p, x)
@@ -3190,6 +3482,27 @@ func genMulti(r *rand.Rand, decls []gen.Param, forms []string, exts []Ext, idx [
 				}
 				mr.Parts = append(mr.Parts, rq)
 			}
+			if form != "" {
+				switch k := r.Intn(12); {
+				case k < 3:
+					// the length of the form body is not announced
+					for k := range mr.Parts {
+						if c.decl(g[k]).In == "formData" {
+							mr.Parts[k].Chunked = true
+						}
+					}
+				case k == 3:
+					// no payload at all: no form parameter is sent; the other locations bind as usual
+					np := []string{"bare", "content-type"}[r.Intn(2)]
+					for k := range mr.Parts {
+						if c.decl(g[k]).In == "formData" {
+							mr.Parts[k] = Req{D: g[k], Absent: true, NoPayload: np}
+						} else {
+							mr.Parts[k].BodyShadow = nil
+						}
+					}
+				}
+			}
 			c.MReqs = append(c.MReqs, mr)
 		}
 	}
@@ -3233,6 +3546,9 @@ func run(m *mon.M) {
 			c := &Case{Mutate: true, Reuse: true, Helpers: true}
 			for k, di := range ids[g:end] {
 				c.Decls = append(c.Decls, decls[di])
+				if in := decls[di].In; (in == "query" || in == "formData") && r.Intn(8) == 0 {
+					c.Decls[k].Name = oddNames[r.Intn(len(oddNames))] // a name that is not an identifier
+				}
 				c.Forms = append(c.Forms, forms[di])
 				c.Ext = append(c.Ext, placement(r, &decls[di], exts[di]))
 				c.Reqs = append(c.Reqs, genReqs(r, k, c.decl(k), full)...)
@@ -3256,7 +3572,7 @@ func run(m *mon.M) {
 		switch {
 		case m.Quick():
 			for _, di := range idx2 {
-				if r.Intn(4) == 0 || exts[di].NestedCF != nil { // (the few arrays of arrays: in every pass)
+				if r.Intn(4) == 0 || exts[di].NestedCF != nil || decls[di].Pattern != "" || decls[di].Type == "file" { // (the few arrays of arrays, pattern and urlencoded-file declarations: in every pass)
 					part = append(part, di)
 				}
 			}
